@@ -73,6 +73,15 @@ func newEventFromUntrustedJSONV3(eventJSON []byte, roomVersion IRoomVersion) (PD
 
 	// We know the JSON must be valid here.
 	eventJSON = CanonicalJSONAssumeValid(eventJSON)
+
+	// The size limit applies to the event as received (canonical form, local keys stripped): a hash
+	// mismatch must not let an oversized event through in its small redacted form.
+	if l := len(eventJSON); l > maxEventLength {
+		return nil, EventValidationError{
+			Code:    EventValidationTooLarge,
+			Message: fmt.Sprintf("gomatrixserverlib: event is too long, length %d bytes > maximum %d bytes", l, maxEventLength),
+		}
+	}
 	res.eventJSON = eventJSON
 
 	if err = checkEventContentHash(eventJSON); err != nil {
